@@ -79,6 +79,12 @@ pub fn expr_params(e: &E, out: &mut Col) {
                 }
             }
         }
+        // expression-level subqueries carry one bound value, read after the operand
+        E::InSub { x, .. } | E::Quantified(x, _, _) => {
+            expr_params(x, out);
+            out.push(PV::I32(crate::expr_spec::SUB_BOUND));
+        }
+        E::Exists | E::ScalarSub => out.push(PV::I32(crate::expr_spec::SUB_BOUND)),
         other => {
             for c in other.children() {
                 expr_params(c, out);
